@@ -104,7 +104,7 @@ theorem varInv_shape {trk : Nat → Bool} {nalt : Nat} {s : St} (h : VarInv trk 
 macro "vf_simp" "[" ts:Lean.Parser.Tactic.simpLemma,* "]" : tactic => `(tactic|
   simp [xstep, St.upd, St.put, St.put2, St.sz, baseOf, tvOf, varEmplace, vDestroy, vConstruct, emplaceAt,
     valueC, copyC, moveC, copyA, moveA, destroyAt, constructAt, assignAt, srcVal, srcMoved, Mem.get, Mem.set,
-    bumpVc, bumpCc, bumpMc, bumpCa, bumpMa, bumpD, varConstructFrom, varAssignFrom, varSwap, optAssignValue,
+    bumpVc, bumpCc, bumpMc, bumpCa, bumpMa, bumpD, varConstructFrom, varAssignFrom, varAssignValue, varSwap, optAssignValue,
     varUse, useAt, varInv6, vok, $ts,*])
 
 
@@ -118,6 +118,32 @@ theorem x_emplace (k : Kind) (trk : Nat → Bool) (nalt : Nat) (x0 x1 : Slot) (c
   cases htj : trk j <;> cases t <;>
   rcases h with ⟨_ | _⟩ | ⟨_ | _⟩ | _ <;> (try exact absurd rfl (hh _).1) <;> (try exact absurd rfl (hh _).2) <;>
   cases k <;> simp only [lv_live, lv_dead] at hbal <;> vf_simp [ht0, ht1, htj] <;> omega
+
+/-- converting assignment `v = t` / `v = move(t)` from an object of the caller -/
+theorem x_convAssign (k : Kind) (trk : Nat → Bool) (nalt : Nat) (x0 x1 : Slot) (c : Cnt) (a b : Nat) (t : Bool)
+    (ha : a < nalt) (hb : b < nalt) (hA : vok trk x0 a) (hB : vok trk x1 b)
+    (hbal : c.vc + c.cc + c.mc = c.d + (lv x0 + lv x1))
+    (mv : Bool) (j v : Nat) (hj : j < nalt) :
+    ∃ s', St.upd ⟨⟨[x0, x1, .dead, .dead, .dead, .dead], c⟩, a, b⟩ t (varAssignValue k trk mv ⟨[x0, x1, .dead, .dead, .dead, .dead], c⟩ (baseOf 1 t) (if t then b else a) j (.ext v)) = .ok s' ∧ VarInv trk nalt s' := by
+  by_cases haj : a = j <;> by_cases hbj : b = j <;>
+  rcases vok_cases hA with ⟨ht0, v0, rfl⟩ | ⟨ht0, rfl⟩ <;>
+  rcases vok_cases hB with ⟨ht1, v1, rfl⟩ | ⟨ht1, rfl⟩ <;>
+  cases htj : trk j <;> (try rw [haj] at ht0) <;> (try rw [hbj] at ht1) <;> (try exact absurd (ht0.symm.trans ht1) (by decide)) <;>
+  (try exact absurd (ht0.symm.trans htj) (by decide)) <;> (try exact absurd (ht1.symm.trans htj) (by decide)) <;> cases t <;>
+  cases mv <;>
+  cases k <;> simp only [lv_live, lv_dead] at hbal <;> vf_simp [ht0, ht1, htj, haj, hbj] <;> omega
+
+/-- converting assignment from the variant's own live alternative, `v = v[index_v<index()>]`: a copy
+    self-assignment of the held object; ok, invariant, and nothing changes -/
+theorem x_assignOwn (k : Kind) (trk : Nat → Bool) (nalt : Nat) (x0 x1 : Slot) (c : Cnt) (a b : Nat) (t : Bool)
+    (ha : a < nalt) (hb : b < nalt) (hA : vok trk x0 a) (hB : vok trk x1 b)
+    (hbal : c.vc + c.cc + c.mc = c.d + (lv x0 + lv x1)) :
+    ∃ s', xstep k trk ⟨⟨[x0, x1, .dead, .dead, .dead, .dead], c⟩, a, b⟩ t .assignOwn = .ok s' ∧ VarInv trk nalt s' ∧
+      s'.mem.slots = [x0, x1, .dead, .dead, .dead, .dead] ∧ s'.a = a ∧ s'.b = b := by
+  rcases vok_cases hA with ⟨ht0, v0, rfl⟩ | ⟨ht0, rfl⟩ <;>
+  rcases vok_cases hB with ⟨ht1, v1, rfl⟩ | ⟨ht1, rfl⟩ <;>
+  cases t <;>
+  simp only [lv_live, lv_dead] at hbal <;> vf_simp [ht0, ht1] <;> omega
 
 theorem x_optAssign (k : Kind) (trk : Nat → Bool) (nalt : Nat) (x0 x1 : Slot) (c : Cnt) (a b : Nat) (t : Bool)
     (ha : a < nalt) (hb : b < nalt) (hA : vok trk x0 a) (hB : vok trk x1 b)
@@ -241,13 +267,23 @@ macro "vf_fsimp" "[" ts:Lean.Parser.Tactic.simpLemma,* "]" : tactic => `(tactic|
   simp [fstep, St.upd, St.put, St.put2, St.sz, baseOf, tvOf, t0Of, emplaceAt,
     valueC, copyC, moveC, copyA, moveA, destroyAt, constructAt, assignAt, srcVal, srcMoved, Mem.get, Mem.set,
     bumpVc, bumpCc, bumpMc, bumpCa, bumpMa, bumpD, fnDestroyCur, fnRelocate, fnCopy, fnFromCallable,
-    fnCopyConstruct, fnMoveConstruct, fnAssignParam, fnAssignFrom, fnAssignCallable, fnReset, fnSwap, fnInvoke,
+    fnCopyConstruct, fnMoveConstruct, fnAssignParam, fnAssignFrom, fnAssignCallable, fnFromOtherCap, fnReset, fnSwap, fnInvoke,
     useAt, fnInv6, fok, $ts,*])
 
 theorem f_callable (k : Kind) (x0 x1 : Slot) (c : Cnt) (a b : Nat) (t : Bool)
     (hA : fok x0 a) (hB : fok x1 b)
     (hbal : c.vc + c.cc + c.mc = c.d + (lv x0 + lv x1)) (asg mv : Bool) (j v : Nat) :
     ∃ s', fstep k ⟨⟨[x0, x1, .dead, .dead, .dead, .dead], c⟩, a, b⟩ t (if asg then (if mv then .assignMove j v else .assignCopy j v) else (if mv then .ctorMove j v else .ctorCopy j v)) = .ok s' ∧ FnInv s' := by
+  rcases fok_cases hA with ⟨rfl, rfl⟩ | ⟨a, v0, rfl, rfl⟩ <;>
+  rcases fok_cases hB with ⟨rfl, rfl⟩ | ⟨b, v1, rfl, rfl⟩ <;>
+  cases t <;> cases asg <;> cases mv <;>
+  cases k <;> simp only [lv_live, lv_dead] at hbal <;> vf_fsimp [] <;> omega
+
+/-- construction / assignment from a local function object of another capacity -/
+theorem f_conv (k : Kind) (x0 x1 : Slot) (c : Cnt) (a b : Nat) (t : Bool)
+    (hA : fok x0 a) (hB : fok x1 b)
+    (hbal : c.vc + c.cc + c.mc = c.d + (lv x0 + lv x1)) (asg mv : Bool) (j v : Nat) :
+    ∃ s', fstep k ⟨⟨[x0, x1, .dead, .dead, .dead, .dead], c⟩, a, b⟩ t (.conv asg mv j v) = .ok s' ∧ FnInv s' := by
   rcases fok_cases hA with ⟨rfl, rfl⟩ | ⟨a, v0, rfl, rfl⟩ <;>
   rcases fok_cases hB with ⟨rfl, rfl⟩ | ⟨b, v1, rfl, rfl⟩ <;>
   cases t <;> cases asg <;> cases mv <;>
@@ -333,6 +369,8 @@ theorem xstep_inv (k : Kind) (trk : Nat → Bool) (nalt : Nat) (s : St) (t : Boo
   | emplace j v => exact x_emplace k trk nalt x0 x1 c a b t ha hb hA hB hbal j (.value v) (by simp) (by simpa [xvalid] using hv)
   | emplaceCopy j v => exact x_emplace k trk nalt x0 x1 c a b t ha hb hA hB hbal j (.copy (.ext v)) (by simp) (by simpa [xvalid] using hv)
   | emplaceMove j v => exact x_emplace k trk nalt x0 x1 c a b t ha hb hA hB hbal j (.move (.ext v)) (by simp) (by simpa [xvalid] using hv)
+  | assignCopy j v => exact x_convAssign k trk nalt x0 x1 c a b t ha hb hA hB hbal false j v (by simpa [xvalid] using hv)
+  | assignMove j v => exact x_convAssign k trk nalt x0 x1 c a b t ha hb hA hB hbal true j v (by simpa [xvalid] using hv)
   | optAssignCopy v => exact x_optAssign k trk nalt x0 x1 c a b t ha hb hA hB hbal false v (by simpa [xvalid] using hv)
   | optAssignMove v => exact x_optAssign k trk nalt x0 x1 c a b t ha hb hA hB hbal true v (by simpa [xvalid] using hv)
   | reset => exact x_emplace k trk nalt x0 x1 c a b t ha hb hA hB hbal 0 (.value 0) (by simp) (by simpa [xvalid] using hv)
@@ -348,7 +386,9 @@ theorem xstep_inv (k : Kind) (trk : Nat → Bool) (nalt : Nat) (s : St) (t : Boo
     obtain ⟨s', h1, h2, -⟩ := x_self k trk nalt x0 x1 c a b t ha hb hA hB hbal true
     exact ⟨s', h1, h2⟩
   | use => exact x_use k trk nalt x0 x1 c a b t ha hb hA hB hbal hv
-  | assignOwn => simp [xvalid] at hv
+  | assignOwn =>
+    obtain ⟨s', h1, h2, -⟩ := x_assignOwn k trk nalt x0 x1 c a b t ha hb hA hB hbal
+    exact ⟨s', h1, h2⟩
 
 theorem xreach_inv {k : Kind} {trk : Nat → Bool} {nalt : Nat} (hn : 0 < nalt) {s : St}
     (h : XReach k trk nalt s) : VarInv trk nalt s := by
@@ -380,6 +420,15 @@ theorem xcassignSelf_id (k : Kind) (trk : Nat → Bool) (nalt : Nat) (s : St) (t
   simp only [St.mk.injEq] at hs
   obtain ⟨rfl, -, -⟩ := hs
   obtain ⟨s', h1, -, h2⟩ := x_self k trk nalt x0 x1 c a b t ha hb hA hB hbal false
+  exact ⟨s', h1, h2⟩
+
+theorem xassignOwn_id (k : Kind) (trk : Nat → Bool) (nalt : Nat) (s : St) (t : Bool) (hi : VarInv trk nalt s) :
+    ∃ s', xstep k trk s t .assignOwn = .ok s' ∧ s'.mem.slots = s.mem.slots ∧ s'.a = s.a ∧ s'.b = s.b := by
+  obtain ⟨x0, x1, c, hs, ha, hb, hA, hB, hbal⟩ := varInv_shape hi
+  obtain ⟨m, a, b⟩ := s
+  simp only [St.mk.injEq] at hs
+  obtain ⟨rfl, -, -⟩ := hs
+  obtain ⟨s', h1, -, h2⟩ := x_assignOwn k trk nalt x0 x1 c a b t ha hb hA hB hbal
   exact ⟨s', h1, h2⟩
 
 theorem xswapSelf_id (k : Kind) (trk : Nat → Bool) (nalt : Nat) (s : St) (t : Bool) (hi : VarInv trk nalt s) :
@@ -420,6 +469,7 @@ theorem fstep_inv (k : Kind) (s : St) (t : Bool) (op : FOp) (hi : FnInv s) (hv :
   | swap => exact f_swap k x0 x1 c a b t hA hB hbal
   | swapSelf => exact ⟨_, by cases t <;> simp [fstep, fnSwap, St.put, St.sz], hi⟩
   | invoke => exact f_invoke k x0 x1 c a b t hA hB hbal hv
+  | conv asg mv j v => exact f_conv k x0 x1 c a b t hA hB hbal asg mv j v
 
 theorem freach_inv {k : Kind} {s : St} (h : FReach k s) : FnInv s := by
   induction h with
